@@ -213,6 +213,16 @@ class SSHSOCKSForwarder(SSHLocalForwarder):
         self._send_socks5_ok()
         self._connect()
 
+    def eof_received(self) -> bool:
+        """Handle an incoming end of file from the SOCKS client"""
+
+        if self._recv_handler: # type: ignore[truthy-function]
+            # EOF in the middle of the SOCKS request: nothing to forward
+            self.close()
+            return False
+
+        return super().eof_received()
+
     def data_received(self, data: bytes, datatype: DataType = None) -> None:
         """Handle incoming data from the SOCKS client"""
 
